@@ -256,6 +256,12 @@ def check_contract(sde, y0, ts, bm, method, adaptive, options, names, logqp):
         if noise_sizes[0] != 1:
             raise ValueError(f"Scalar noise must have only one channel; the diffusion has {noise_sizes[0]} noise "
                              f"channels.")
+    if sde.noise_type == NOISE_TYPES.diagonal:
+        # Only the `g`/`f_and_g` outputs tie the noise size to the state size; with just `g_prod`/`f_and_g_prod` a
+        # Brownian motion with the wrong number of channels would otherwise be silently broadcast.
+        if len(noise_sizes) > 0 and noise_sizes[0] != state_sizes[0]:
+            raise ValueError(f"Diagonal noise must have as many noise channels as state channels; got "
+                             f"{noise_sizes[0]} noise channels and {state_sizes[0]} state channels.")
 
     sde = base_sde.ForwardSDE(sde)
 
